@@ -47,6 +47,7 @@ def names_job(beh, seed):
     for _ in range(rng.randint(0, 4)):
         need(pending.pop())
     intended = []
+    deferred = []
     events = []
     counter = [0]
 
@@ -67,6 +68,13 @@ def names_job(beh, seed):
             objs['GOOD'].AddVariable('PROBE%d' % n, 'probe', '0.5*%s' % name)
         elif place == 'global':
             m.AddGlobalEquation('PROBE%d' % n, 'probe', '3.0*%s' % name)
+        elif place == 'own_generate':
+            # a user-defined sector keeps the name it was given and writes it into an equation of its own when its
+            # _GenerateEquations() runs inside main()
+            if when == 'coded':
+                objs['PROBE'].AddVariable('PROBE%d' % n, 'probe', '4.0*%s' % name)
+            else:
+                deferred.append((n, name))
         events.append({'ev': 'Request', 'place': place, 'var': r['var'], 'when': when, 'got_placeholder': bool(got)})
 
     late = [r for r in reqs if not r['placeholder']]
@@ -75,6 +83,8 @@ def names_job(beh, seed):
     class Probe(Sector):
         """a user-defined sector: its _GenerateEquations runs inside main(), after full codes exist"""
         def _GenerateEquations(self):
+            for (n, name) in deferred:
+                self.AddVariable('PROBE%d' % n, 'probe', '4.0*%s' % name)
             for r in late:
                 embed(r, 'coded')
 
@@ -120,12 +130,12 @@ def names_job(beh, seed):
             for (n, place, own, loc) in intended:
                 target = '%s__%s' % (own, loc)
                 host = {'sector_eq': 'HH__PROBE%d', 'term': 'HH__PROBE%d', 'supplier_rule': 'GOOD__PROBE%d',
-                        'global': 'PROBE%d'}[place] % n
+                        'global': 'PROBE%d', 'own_generate': 'PRB__PROBE%d'}[place] % n
                 if host not in b.system.endo or target not in env:
                     wrong.append(host)
                     continue
                 want = {'sector_eq': Fraction(2) * env[target], 'supplier_rule': Fraction(1, 2) * env[target],
-                        'global': Fraction(3) * env[target],
+                        'global': Fraction(3) * env[target], 'own_generate': Fraction(4) * env[target],
                         'term': env[target] * env.get('HH__AlphaFin', Fraction(0))}[place]
                 try:
                     got = mp._eval(b.system.endo[host], env)
